@@ -155,14 +155,6 @@ theorem buildUnion3_shape (non : List PyExpr) (lits : List (List PyExpr)) (hn : 
     · simp at he
     · simp at he; subst he; rfl
 
-theorem mem_formSetL_sub {α : Type} [DecidableEq α] {nm : String → α} {ip : Bool} {l : List α} {x : α}
-    (h : x ∈ formSetL nm ip l) : x ∈ l := by
-  unfold formSetL at h
-  simp only [] at h
-  split at h
-  · exact mem_dedupL.1 (List.mem_filter.1 h).1
-  · exact mem_dedupL.1 h
-
 mutual
 theorem tyExpr_shape (ip : Bool) : ∀ t : Ty, isTypeExpr (tyExpr ip t) = true
   | .any => rfl
@@ -185,7 +177,7 @@ theorem tyExpr_shape (ip : Bool) : ∀ t : Ty, isTypeExpr (tyExpr ip t) = true
     apply buildUnion3_shape
     intro e he
     have h1 := (List.mem_filter.1 he).1
-    have h2 := mem_formSetL_sub h1
+    have h2 := mem_formSetK h1
     exact tyExprs_shape ip ts e h2
   | .literal _ => rfl
   | .annotated _ _ => rfl
